@@ -28,7 +28,10 @@ def run(ctx, prop):
                 A = cfg["coordinator"]["agents"]["Attacker"]
                 A["max_steps"] = 4
                 A["goal"]["known_data"] = {}
-                A["goal"]["known_hosts"] = ["1.1.1.1"]        # unreachable: episodes end by timeout
+                # variant by scenario: unreachable (episodes end by timeout), or two hosts of the scenario that a scan may or may not reveal -
+                # an episode may end with Success only when the view really knows them under the CURRENT labelling
+                goal_hosts = ["192.168.1.2", "192.168.1.4"] if scenario == "scenario1" else []
+                A["goal"]["known_hosts"] = goal_hosts or ["1.1.1.1"]
                 listed_ctrl = ["213.47.23.195", "192.168.2.2"]
                 listed_known = ["192.168.1.2"] if scenario != "three_nets" else []
                 A["start_position"]["controlled_hosts"] = list(listed_ctrl)
@@ -111,9 +114,18 @@ def run(ctx, prop):
                                     continue
                                 src = sorted(str(h) for h in st.controlled_hosts)[0]
                                 nets = sorted((n.ip, n.mask) for n in st.known_networks)
-                                d.send(a, msg("ScanNetwork", source_host=ip(src), target_network={"ip": nets[0][0], "mask": nets[0][1]}))
+                                d.send(a, msg("ScanNetwork", source_host=ip(src), target_network={"ip": nets[_ % len(nets)][0], "mask": nets[_ % len(nets)][1]}))
                                 d.settle()
-                                outs(a)
+                                for o_ in outs(a):
+                                    ob = o_.get("observation") or {}
+                                    if ob.get("end") and "Success" in str((ob.get("info") or {}).get("end_reason")):
+                                        want = {str(g._ip_mapping[IP(x)]) for x in goal_hosts if IP(x) in g._ip_mapping} if goal_hosts else None
+                                        have = {h["ip"] for h in ob["state"]["known_hosts"]}
+                                        stats["successes_checked"] = stats.get("successes_checked", 0) + 1
+                                        if want is None or not want <= have:
+                                            ctx.violations.append({"key": "an episode is won without the configured goal (dynamic addresses)",
+                                                                   "what": f"episode {episode + 1}: the attacker's episode ended with Success although the configured goal hosts {goal_hosts or ['1.1.1.1']} (currently {sorted(want) if want else 'not in the world'}) are not all among its known hosts {sorted(have)}",
+                                                                   "replay": replay})
                         for a in agents:
                             outs(a)                     # final observations released by the end-of-episode barrier
                         # every network of the world, by the name the world itself gives it (re-labelled public networks keep
